@@ -13,6 +13,7 @@ from .prng import derive
 from .runner import Runner
 
 ROOT = build.ROOT
+OUT = os.environ.get("VERIF_OUT_DIR") or ROOT      # where evidence/ and replays/ are written (scratch for tool runs)
 DEFAULT_SEED = 20260924
 PROPS = {"C01": "c01", "C08": "c08", "C09": "c09", "C10": "c10", "C12": "c12", "C14": "c14", "C15": "c15",
          "C16": "c16"}
@@ -60,6 +61,8 @@ class Ctx:
         self.executions = 0
         self.unconfirmed = []
         self.stats = Stats()
+        self.digest = 0            # order-independent digest of every (config, scenario, history) executed
+        self.want_digest = bool(os.environ.get("VERIF_DIGEST"))
 
     def _runner(self, config):
         r = self.runners.get(config)
@@ -86,6 +89,11 @@ class Ctx:
             return h2
         if "harness_error" in h:
             raise HarnessError(h["harness_error"])
+        if self.want_digest:
+            import re
+            text = re.sub(r"0x[0-9a-fA-F]+", "ADDR", json.dumps(h, sort_keys=True))     # object addresses in error messages
+            self.digest = (self.digest + stable_hash([config, scenario.get("programs"), scenario.get("tape"),
+                                                      scenario.get("faults"), scenario.get("config"), text])) & ((1 << 64) - 1)
         return h
 
     def close(self):
@@ -166,7 +174,7 @@ def _worker(args):
         ctx.close()
     stats.merge(ctx.stats)
     return {"stats": dict(stats), "keys": keys, "violations": violations, "samples": samples, "cases": cases,
-            "executions": ctx.executions, "unconfirmed": ctx.unconfirmed, "error": err}
+            "executions": ctx.executions, "unconfirmed": ctx.unconfirmed, "error": err, "digest": ctx.digest}
 
 
 # ---------------------------------------------------------------------------------------------
@@ -247,7 +255,7 @@ def run_findings(prop, ctx, seed):
 
 
 def write_replay(prop, seed, tag, scenario, violation, extra=None):
-    d = os.path.join(ROOT, "replays", prop.ID)
+    d = os.path.join(OUT, "replays", prop.ID)
     os.makedirs(d, exist_ok=True)
     path = os.path.join(d, "%s-%s.json" % (seed, tag))
     doc = dict(scenario)
@@ -262,10 +270,10 @@ def write_replay(prop, seed, tag, scenario, violation, extra=None):
 
 
 def write_evidence(prop, tier, seed, wall, coverage, nviol, assumptions):
-    os.makedirs(os.path.join(ROOT, "evidence"), exist_ok=True)
+    os.makedirs(os.path.join(OUT, "evidence"), exist_ok=True)
     doc = {"property_id": prop.ID, "tier": tier, "seed": seed, "level": prop.LEVEL, "coverage": coverage,
            "assumptions": assumptions, "wall_s": round(wall, 2), "violations": nviol}
-    path = os.path.join(ROOT, "evidence", "%s.json" % prop.ID)
+    path = os.path.join(OUT, "evidence", "%s.json" % prop.ID)
     tmp = path + ".tmp"
     with open(tmp, "w") as f:
         json.dump(doc, f, indent=1, sort_keys=True)
@@ -303,7 +311,9 @@ def do_check(prop, tier, seed, nworkers, runs_override=None):
     cases = 0
     executions = ctx.executions
     unconfirmed = []
+    digest = 0
     for r in results:
+        digest = (digest + r.get("digest", 0)) & ((1 << 64) - 1)
         if r["error"]:
             sys.stderr.write(r["error"])
             print("HARNESS-ERROR: worker failed; see stderr")
@@ -371,6 +381,8 @@ def do_check(prop, tier, seed, nworkers, runs_override=None):
     for u in unconfirmed[:5]:
         print("WARNING: anomaly that did not reproduce when re-run alone: %s" % json.dumps(u)[:300])
     print("cases=%d executions=%d distinct_nontrivial=%d wall=%.1fs" % (cases, executions, len(keys), wall))
+    if os.environ.get("VERIF_DIGEST"):
+        print("digest=%016x stats=%016x" % (digest, stable_hash({k: stats[k] for k in sorted(stats) if k != "stopped_by_wall_clock"})))
     if reported:
         for path, vv, confirmed in reported:
             print("violation class=%s: %s%s" % (vv.get("class"), vv.get("msg"), "" if confirmed else "  [replay not confirmed]"))
